@@ -1,4 +1,15 @@
-(* Handler_proofs.v — lemmas and theorems about FramedWrite.v and Handler.v. *)
+(* Handler_proofs.v — lemmas and theorems about FramedWrite.v and Handler.v.
+
+   Main results (all for an arbitrary `encode`, arbitrary op lists and scripts):
+     do_poll_not_exhausted                      the fuel of hpoll_loop always suffices
+     C08_handler_no_panic_if_disciplined        (+ _ex, + _refuted for the contract without its third rule)
+     C14_one_frame                              (+ _ex)   one frame per stream, prefix property
+     C14_ready_iff_flushed                      when exactly RpReady is queued (one loop pass)
+     C14_ready_means_delivered                  RpReady => last wantlist written completely (contract)
+     C14_report_protocol, C14_no_silent_loss    (+ _ex)   exactly one outcome, closing, progress, timeout
+     C14_send_completes, C14_progress_reaches_ready, C14_flush_ok_reports_ready
+     C05_handler_reports                        (+ _ex)   = C05_timeout_reports_failed, C05_flush_error_reports_failed,
+                                                C05_close_reports_failed, C05_alloc_failure_retries *)
 From BS Require Import Handler.
 From Coq Require Import ZArith ZifyBool ZifyN ZifyNat Lia.
 
@@ -1022,6 +1033,1083 @@ Proof.
     + cbn [h_queue set_sink]. rewrite Q. cbn [In]. split; [tauto|]. intros (_ & _ & _ & _ & i & b & [= <- <-] & H). congruence.
 Qed.
 
+(* ------------------------------------------------------------------------------------------------ *)
+(* Step-level behaviour of poll / poll_close (used by C14_no_silent_loss and C05_handler_reports)   *)
+(* ------------------------------------------------------------------------------------------------ *)
+
+Lemma poll_iter_pop st s ev q :
+  h_queue st = ev :: q -> poll_iter encode st s = (IrReady (hout_of_ev ev), set_queue st q, s, []).
+Proof. intros Q. unfold poll_iter. rewrite Q. reflexivity. Qed.
+
+Lemma hpoll_loop_S f st s :
+  hpoll_loop encode (S f) st s =
+  match poll_iter encode st s with
+  | (IrPending, st', _, o) => (st', o)
+  | (IrReady e, st', s', o) => let '(st'', o') := hpoll_loop encode f st' s' in (st'', o ++ e :: o')
+  | (IrContinue, st', s', o) => let '(st'', o') := hpoll_loop encode f st' s' in (st'', o ++ o')
+  end.
+Proof. reflexivity. Qed.
+
+(* `poll` first hands out everything that is queued *)
+Lemma hpoll_loop_drain n s : forall q st, h_queue st = q ->
+  hpoll_loop encode (length q + n) st s =
+  let r := hpoll_loop encode n (set_queue st []) s in
+  (fst r, map hout_of_ev q ++ snd r).
+Proof.
+  induction q as [|ev q IH]; intros st Q.
+  - cbn [length plus map app]. replace (set_queue st []) with st; [destruct (hpoll_loop encode n st s); reflexivity|].
+    destruct st; cbn in *; subst; reflexivity.
+  - cbn [length plus hpoll_loop]. rewrite (poll_iter_pop st s ev q Q).
+    rewrite (IH (set_queue st q) eq_refl). cbn zeta.
+    replace (set_queue (set_queue st q) []) with (set_queue st []) by reflexivity.
+    destruct (hpoll_loop encode n (set_queue st []) s) as [st' o']. reflexivity.
+Qed.
+
+Lemma do_poll_drain st s :
+  do_poll encode st s =
+  let r := hpoll_loop encode 8 (set_queue st []) s in (fst r, map hout_of_ev (h_queue st) ++ snd r).
+Proof. unfold do_poll, poll_fuel. apply hpoll_loop_drain. reflexivity. Qed.
+
+Lemma poll_iter_halted st s :
+  h_queue st = [] -> h_halted st = true -> poll_iter encode st s = (IrPending, st, s, []).
+Proof. intros Q H. unfold poll_iter. rewrite Q, H. reflexivity. Qed.
+
+(* start-sending timeout *)
+Lemma poll_iter_timeout st s :
+  h_queue st = [] -> h_halted st = false -> timeout_fired st = true ->
+  poll_iter encode st s =
+    (IrContinue,
+     set_halted (change_sending_state (set_sink (set_msg (set_timeout st None) None) SkNone) (SsFailed (h_conn st))) true,
+     s, match h_sink st with SkReady id _ => [HDropped id] | _ => [] end).
+Proof.
+  intros Q H T. unfold poll_iter. rewrite Q, H, T. unfold drop_sink. cbn [h_sink set_msg set_timeout].
+  destruct (h_sink st); reflexivity.
+Qed.
+
+Theorem C05_timeout_reports_failed st s :
+  h_halted st = false -> timeout_fired st = true -> last_state (h_queue st) <> Some (SsFailed (h_conn st)) ->
+  (last_state (h_queue st) = None -> h_sending st <> SsFailed (h_conn st)) ->
+  (forall x, last_state (h_queue st) = Some x -> h_sending st = x) ->
+  let r := do_poll encode st s in
+  In (HReport (RpFailed (h_conn st))) (snd r) /\ h_halted (fst r) = true /\ h_msg (fst r) = None
+  /\ h_sink (fst r) = SkNone /\ h_timeout (fst r) = None /\ h_queue (fst r) = [].
+Proof.
+  intros HL TF L1 L2 L3. rewrite do_poll_drain. cbn zeta.
+  set (st0 := set_queue st []).
+  assert (NF : h_sending st <> SsFailed (h_conn st)).
+  { destruct (last_state (h_queue st)) eqn:E in *; [rewrite (L3 _ eq_refl); congruence | auto]. }
+  cbn [hpoll_loop]. rewrite (poll_iter_timeout st0 s eq_refl HL TF).
+  set (st1 := set_halted _ true).
+  destruct (css_cases (set_sink (set_msg (set_timeout st0 None) None) SkNone) (SsFailed (h_conn st)))
+    as [[_ H]|[EQ _]]; [cbn in H; congruence|].
+  assert (Q1 : h_queue st1 = [EvState (SsFailed (h_conn st))]).
+  { subst st1. cbn [h_queue set_halted]. change (h_conn st0) with (h_conn st). rewrite EQ. reflexivity. }
+  rewrite (poll_iter_pop st1 s _ _ Q1).
+  rewrite (poll_iter_halted (set_queue st1 []) s eq_refl); [|reflexivity].
+  cbn [fst snd]. split.
+  - rewrite !in_app_iff. right. right. cbn. auto.
+  - subst st1. cbn. autorewrite with css. cbn. auto.
+Qed.
+
+(* flush error on the stream that carries the frame *)
+Lemma poll_iter_flush st s id buf :
+  h_queue st = [] -> h_halted st = false -> timeout_fired st = false -> h_msg st = None ->
+  h_sink st = SkReady id buf ->
+  poll_iter encode st s =
+    let f := fw_poll_flush buf s in
+    let ofl := map (hout_of_sev id) (fr_evs f) in
+    match fr_res f with
+    | PrPending => (IrPending, set_sink st (SkReady id (fr_buf f)), fr_script f, ofl)
+    | PrErr => (IrContinue, change_sending_state (set_sink st SkNone) (SsFailed (h_conn st)), fr_script f,
+                ofl ++ [HDropped id])
+    | PrOk => let c := fw_poll_close (fr_buf f) (fr_script f) in
+              (IrContinue, change_sending_state (set_sink st SkNone) SsReady, fr_script c,
+               ofl ++ map (hout_of_sev id) (fr_evs c) ++ [HDropped id])
+    end.
+Proof. intros Q H T M K. unfold poll_iter. rewrite Q, H, T, M, K. reflexivity. Qed.
+
+Lemma poll_iter_idle st s :
+  h_queue st = [] -> h_halted st = false -> timeout_fired st = false -> h_msg st = None ->
+  h_sink st = SkNone -> poll_iter encode st s = (IrPending, st, s, []).
+Proof. intros Q H T M K. unfold poll_iter. rewrite Q, H, T, M, K. reflexivity. Qed.
+
+Theorem C05_flush_error_reports_failed st s id buf :
+  h_queue st = [] -> h_halted st = false -> timeout_fired st = false -> h_msg st = None ->
+  h_sink st = SkReady id buf -> h_sending st <> SsFailed (h_conn st) ->
+  fr_res (fw_poll_flush buf s) = PrErr ->
+  let r := do_poll encode st s in
+  snd r = map (hout_of_sev id) (fr_evs (fw_poll_flush buf s)) ++ [HDropped id; HReport (RpFailed (h_conn st))]
+  /\ h_sink (fst r) = SkNone /\ h_sending (fst r) = SsFailed (h_conn st) /\ h_halted (fst r) = false.
+Proof.
+  intros Q HL TF M K NF FR. rewrite do_poll_drain. cbn zeta. rewrite Q.
+  replace (set_queue st []) with st by (destruct st; cbn in *; subst; reflexivity).
+  cbn [hpoll_loop]. rewrite (poll_iter_flush st s id buf Q HL TF M K). cbn zeta. rewrite FR.
+  destruct (css_cases (set_sink st SkNone) (SsFailed (h_conn st))) as [[_ H]|[EQ _]]; [cbn in H; congruence|].
+  rewrite EQ. cbn [h_queue set_sink]. rewrite Q. cbn [app].
+  match goal with |- context [poll_iter encode ?x ?y] => rewrite (poll_iter_pop x y _ _ eq_refl) end.
+  match goal with |- context [poll_iter encode ?x ?y] => rewrite (poll_iter_idle x y eq_refl) end; try reflexivity; cbn; auto.
+  split; [rewrite <- app_assoc; reflexivity|]. auto.
+Qed.
+
+(* sending completes *)
+Lemma hpoll_loop_flush_ok n st s id buf :
+  h_queue st = [] -> h_halted st = false -> timeout_fired st = false -> h_msg st = None ->
+  h_sink st = SkReady id buf -> h_sending st <> SsReady ->
+  fr_res (fw_poll_flush buf s) = PrOk ->
+  hpoll_loop encode (S (S (S n))) st s =
+    (set_sending (set_sink st SkNone) SsReady,
+     (map (hout_of_sev id) (fr_evs (fw_poll_flush buf s)) ++
+      map (hout_of_sev id) (fr_evs (fw_poll_close (fr_buf (fw_poll_flush buf s)) (fr_script (fw_poll_flush buf s))))
+      ++ [HDropped id]) ++ [HReport RpReady]).
+Proof.
+  intros Q HL TF M K NR FR.
+  cbn [hpoll_loop]. rewrite (poll_iter_flush st s id buf Q HL TF M K). cbn zeta. rewrite FR.
+  destruct (css_cases (set_sink st SkNone) SsReady) as [[_ H]|[EQ _]]; [cbn in H; congruence|].
+  rewrite EQ. cbn [h_queue set_sink]. rewrite Q. cbn [app].
+  match goal with |- context [poll_iter encode ?x ?y] => rewrite (poll_iter_pop x y _ _ eq_refl) end.
+  match goal with |- context [poll_iter encode ?x ?y] => rewrite (poll_iter_idle x y eq_refl) end;
+    try reflexivity; cbn [h_halted h_msg h_sink set_queue set_sending set_sink]; auto.
+  cbn [fst snd map app hout_of_ev report_of]. f_equal.
+  destruct st; cbn in *; subst; reflexivity.
+Qed.
+
+Theorem C14_flush_ok_reports_ready st s id buf :
+  h_queue st = [] -> h_halted st = false -> timeout_fired st = false -> h_msg st = None ->
+  h_sink st = SkReady id buf -> h_sending st <> SsReady ->
+  fr_res (fw_poll_flush buf s) = PrOk ->
+  let r := do_poll encode st s in
+  In (HReport RpReady) (snd r) /\ In (HDropped id) (snd r) /\ wrote_on id (snd r) = buf
+  /\ h_sink (fst r) = SkNone /\ h_sending (fst r) = SsReady /\ h_msg (fst r) = None.
+Proof.
+  intros Q HL TF M K NR FR. cbn zeta. unfold do_poll, poll_fuel. rewrite Q. cbn [length plus].
+  rewrite (hpoll_loop_flush_ok _ st s id buf Q HL TF M K NR FR). cbn [fst snd].
+  pose proof (fw_poll_flush_conserve s buf) as CV. rewrite (fw_poll_flush_ok s buf FR), app_nil_r in CV.
+  pose proof (fw_poll_close_conserve (fr_script (fw_poll_flush buf s)) (fr_buf (fw_poll_flush buf s))) as CC.
+  rewrite (fw_poll_flush_ok s buf FR) in CC. apply app_eq_nil in CC as [CC _].
+  split; [|split; [|split; [|cbn; auto]]].
+  - rewrite !in_app_iff. right. cbn. auto.
+  - rewrite !in_app_iff. left. right. right. cbn. auto.
+  - rewrite !wrote_on_app, !wrote_on_sevs, N.eqb_refl, CV.
+    rewrite (fw_poll_flush_ok s buf FR), CC. cbn. rewrite !app_nil_r. reflexivity.
+Qed.
+
+(* poll_close while a wantlist is outstanding *)
+Theorem C05_close_reports_failed st s :
+  h_panicked st = false -> h_closing st = false ->
+  (exists t c, h_sending st = SsRequestReceived t c \/ h_sending st = SsSending t c) ->
+  let r := hstep encode st (HPollClose s) in
+  (exists pre, snd r = pre ++ [HReport (RpFailed (h_conn st)); HClosing])
+  /\ h_msg (fst r) = None /\ h_sink (fst r) = SkNone /\ h_closing (fst r) = true
+  /\ h_sending (fst r) = SsFailed (h_conn st) /\ h_queue (fst r) = [].
+Proof.
+  intros P CL (t & c & S). unfold hstep. rewrite P. unfold do_poll_close. rewrite CL.
+  cbn [h_sink set_msg set_closing].
+  assert (G : forall k o,
+    let st2 := set_sink (set_msg (set_closing st true) None) k in
+    let st3 := match h_sending st2 with
+               | SsRequestReceived _ _ | SsSending _ _ => change_sending_state st2 (SsFailed (h_conn st))
+               | _ => st2 end in
+    let st4 := set_queue st3 (h_queue st3 ++ [EvClosing]) in
+    (exists pre, o ++ map hout_of_ev (h_queue st4) = pre ++ [HReport (RpFailed (h_conn st)); HClosing])
+    /\ h_msg (set_queue st4 []) = None /\ h_sink (set_queue st4 []) = k /\ h_closing (set_queue st4 []) = true
+    /\ h_sending (set_queue st4 []) = SsFailed (h_conn st) /\ h_queue (set_queue st4 []) = []).
+  { intros k o st2 st3 st4.
+    assert (E3 : st3 = change_sending_state st2 (SsFailed (h_conn st))).
+    { subst st3. change (h_sending st2) with (h_sending st). destruct S as [-> | ->]; reflexivity. }
+    destruct (css_cases st2 (SsFailed (h_conn st))) as [[_ H]|[EQ _]].
+    { change (h_sending st2) with (h_sending st) in H. destruct S; congruence. }
+    subst st4. rewrite E3. cbn [h_msg h_sink h_closing h_sending h_queue set_queue].
+    autorewrite with css. split; [|subst st2; cbn; auto].
+    rewrite EQ. cbn [h_queue set_queue]. rewrite map_app, map_app. cbn [map hout_of_ev report_of].
+    exists (o ++ map hout_of_ev (h_queue st2)). rewrite <- !app_assoc. reflexivity. }
+  destruct (h_sink st) as [| |id buf]; cbn [fst snd]; apply G.
+Qed.
+
+(* a wantlist is waiting and no stream is held: the next poll requests one *)
+Lemma poll_iter_open st s m :
+  h_queue st = [] -> h_halted st = false -> timeout_fired st = false -> h_msg st = Some m ->
+  h_sink st = SkNone -> poll_iter encode st s = (IrReady HOpenStream, set_sink st SkRequested, s, []).
+Proof. intros Q H T M K. unfold poll_iter. rewrite Q, H, T, M, K. reflexivity. Qed.
+
+Lemma poll_iter_requested st s :
+  h_queue st = [] -> h_halted st = false -> timeout_fired st = false ->
+  h_sink st = SkRequested -> poll_iter encode st s = (IrPending, st, s, []).
+Proof. intros Q H T K. unfold poll_iter. rewrite Q, H, T, K. destruct (h_msg st); reflexivity. Qed.
+
+Lemma set_queue_nil_id st : h_queue st = [] -> set_queue st [] = st.
+Proof. intros Q. destruct st; cbn in *; subst; reflexivity. Qed.
+
+Theorem C05_alloc_failure_retries st s m :
+  h_panicked st = false -> h_queue st = [] -> h_halted st = false -> h_msg st = Some m ->
+  h_sink st = SkRequested ->
+  let st1 := fst (hstep encode st HAllocFailed) in
+  let r := hstep encode st1 (HPoll s) in
+  snd (hstep encode st HAllocFailed) = []
+  /\ (timeout_fired st = false -> snd r = [HOpenStream] /\ h_sink (fst r) = SkRequested /\ h_msg (fst r) = Some m
+                                   /\ h_halted (fst r) = false)
+  /\ (timeout_fired st = true -> h_sending st <> SsFailed (h_conn st) ->
+        In (HReport (RpFailed (h_conn st))) (snd r) /\ h_halted (fst r) = true).
+Proof.
+  intros P Q HL M K.
+  assert (E1 : hstep encode st HAllocFailed = (set_sink st SkNone, [])).
+  { unfold hstep. rewrite P. unfold do_alloc_failed. rewrite HL, K. reflexivity. }
+  cbn zeta. rewrite E1. cbn [fst snd]. split; [reflexivity|].
+  unfold hstep. cbn [h_panicked set_sink]. rewrite P. split.
+  - intros TF. rewrite do_poll_drain. cbn zeta. cbn [h_queue set_sink]. rewrite Q.
+    rewrite set_queue_nil_id by (cbn; exact Q).
+    cbn [hpoll_loop]. rewrite (poll_iter_open _ s m); try assumption; try reflexivity.
+    rewrite poll_iter_requested; try assumption; try reflexivity. cbn. auto.
+  - intros TF NF.
+    pose proof (C05_timeout_reports_failed (set_sink st SkNone) s) as T. cbn zeta in T.
+    cbn [h_queue h_halted h_conn h_sending set_sink] in T. rewrite Q in T. cbn [last_state] in T.
+    destruct T as (T1 & T2 & _); auto; try discriminate.
+Qed.
+
+(* a stream arrives while the wantlist is waiting: the frame is started and RpSending reported *)
+Lemma poll_iter_start st s m id :
+  h_queue st = [] -> h_halted st = false -> timeout_fired st = false -> h_msg st = Some m ->
+  h_sink st = SkReady id [] ->
+  poll_iter encode st s =
+    (IrContinue,
+     change_sending_state (set_timeout (add_frame (set_sink (set_msg st None) (SkReady id (encode m))) (id, m)) None)
+       (SsSending (h_now st) (h_conn st)), s, []).
+Proof.
+  intros Q H T M K. unfold poll_iter. rewrite Q, H, T, M, K, fw_poll_ready_empty. reflexivity.
+Qed.
+
+(* From "wantlist waiting, fresh stream installed": one poll whose script lets the whole frame through
+   reports RpSending then RpReady, and the stream has accepted exactly encode m. *)
+Theorem C14_send_completes st s m id t :
+  h_queue st = [] -> h_halted st = false -> timeout_fired st = false -> h_msg st = Some m ->
+  h_sink st = SkReady id [] -> h_sending st = SsRequestReceived t (h_conn st) ->
+  fr_res (fw_poll_flush (encode m) s) = PrOk ->
+  let r := do_poll encode st s in
+  (exists o1, snd r = HReport (RpSending (h_conn st)) :: o1 ++ [HDropped id; HReport RpReady])
+  /\ wrote_on id (snd r) = encode m
+  /\ h_sending (fst r) = SsReady /\ h_msg (fst r) = None /\ h_sink (fst r) = SkNone /\ h_timeout (fst r) = None
+  /\ h_frames (fst r) = h_frames st ++ [(id, m)].
+Proof.
+  intros Q HL TF M K SD FR. cbn zeta. unfold do_poll, poll_fuel. rewrite Q. cbn [length plus].
+  rewrite hpoll_loop_S, (poll_iter_start st s m id Q HL TF M K).
+  set (stA := set_timeout _ None).
+  destruct (css_cases stA (SsSending (h_now st) (h_conn st))) as [[_ H]|[EQ _]].
+  { subst stA. cbn in H. congruence. }
+  rewrite EQ. subst stA. cbn [h_queue set_timeout add_frame set_sink set_msg]. rewrite Q. cbn [app].
+  rewrite hpoll_loop_S.
+  match goal with |- context [poll_iter encode ?x ?y] => rewrite (poll_iter_pop x y _ _ eq_refl) end.
+  match goal with |- context [hpoll_loop encode ?n ?x ?y] =>
+    rewrite (hpoll_loop_flush_ok _ x y id (encode m)) end; try reflexivity; try assumption;
+    try (cbn; discriminate).
+  cbn [fst snd app hout_of_ev report_of].
+  pose proof (fw_poll_flush_conserve s (encode m)) as CV. rewrite (fw_poll_flush_ok s _ FR), app_nil_r in CV.
+  pose proof (fw_poll_close_conserve (fr_script (fw_poll_flush (encode m) s)) (fr_buf (fw_poll_flush (encode m) s))) as CC.
+  rewrite (fw_poll_flush_ok s _ FR) in CC. apply app_eq_nil in CC as [CC _].
+  split; [|split; [|cbn; auto 10]].
+  - exists (map (hout_of_sev id) (fr_evs (fw_poll_flush (encode m) s)) ++
+            map (hout_of_sev id) (fr_evs (fw_poll_close (fr_buf (fw_poll_flush (encode m) s)) (fr_script (fw_poll_flush (encode m) s))))).
+    cbn [app]. rewrite <- !app_assoc. reflexivity.
+  - cbn [wrote_on]. rewrite !wrote_on_app, !wrote_on_sevs, N.eqb_refl, CV.
+    rewrite (fw_poll_flush_ok s _ FR), CC. cbn. rewrite !app_nil_r. reflexivity.
+Qed.
+
+(* progress across polls while Sending *)
+Lemma do_poll_flush_pending st s id buf :
+  h_queue st = [] -> h_halted st = false -> timeout_fired st = false -> h_msg st = None ->
+  h_sink st = SkReady id buf -> fr_res (fw_poll_flush buf s) = PrPending ->
+  do_poll encode st s =
+    (set_sink st (SkReady id (fr_buf (fw_poll_flush buf s))),
+     map (hout_of_sev id) (fr_evs (fw_poll_flush buf s))).
+Proof.
+  intros Q HL TF M K FR. unfold do_poll, poll_fuel. rewrite Q. cbn [length plus].
+  rewrite hpoll_loop_S, (poll_iter_flush st s id buf Q HL TF M K). cbn zeta. rewrite FR. reflexivity.
+Qed.
+
+Definition good_script (s : list io) : Prop := exists n r, s = WAccept n :: FlushOk :: r /\ 1 <= n.
+
+Lemma splitN_length {A} (k : N) (l a b : list A) :
+  splitN k l = (a, b) -> 1 <= k -> l <> [] -> (length b < length l)%nat.
+Proof.
+  intros H K L. destruct l as [|x l]; [congruence|]. cbn [splitN] in H.
+  destruct (k =? 0) eqn:E; [lia|]. destruct (splitN (k - 1) l) as [a' b'] eqn:E'.
+  inversion H; subst. apply splitN_app in E'. subst l. cbn. rewrite app_length. lia.
+Qed.
+
+Lemma fw_flush_progress buf s :
+  buf <> [] -> good_script s ->
+  fr_res (fw_poll_flush buf s) = PrOk \/
+  (fr_res (fw_poll_flush buf s) = PrPending /\ fr_buf (fw_poll_flush buf s) <> []
+   /\ (length (fr_buf (fw_poll_flush buf s)) < length buf)%nat).
+Proof.
+  intros NE (n & r & -> & N1). destruct buf as [|b buf]; [congruence|].
+  cbn [fw_poll_flush fw_write1].
+  assert (L : 1 <= len (b :: buf)) by (rewrite len_cons; lia).
+  destruct (N.min n (len (b :: buf)) =? 0) eqn:E; [exfalso; lia|].
+  destruct (splitN (N.min n (len (b :: buf))) (b :: buf)) as [w rest] eqn:SP.
+  pose proof (splitN_length _ _ _ _ SP ltac:(lia) NE) as LT.
+  destruct rest as [|x rest].
+  - left. reflexivity.
+  - right. cbn. repeat split; [discriminate | exact LT].
+Qed.
+
+Lemma hrun_cons st op ops :
+  snd (hrun encode st (op :: ops)) = snd (hstep encode st op) ++ snd (hrun encode (fst (hstep encode st op)) ops).
+Proof.
+  unfold hrun. cbn [hrun_trace]. destruct (hstep encode st op) as [st' o]. cbn [fst snd].
+  destruct (hrun_trace encode st' ops) as [st'' os]. reflexivity.
+Qed.
+
+(* While Sending, polls whose scripts let at least one byte through and offer a flush reach RpReady
+   after at most one poll per buffered byte. *)
+Theorem C14_progress_reaches_ready : forall (ss : list (list io)) st id buf t c,
+  h_panicked st = false -> h_queue st = [] -> h_halted st = false -> h_timeout st = None -> h_msg st = None ->
+  h_sink st = SkReady id buf -> h_sending st = SsSending t c -> buf <> [] ->
+  Forall good_script ss -> (length buf <= length ss)%nat ->
+  In (HReport RpReady) (snd (hrun encode st (map HPoll ss))).
+Proof.
+  induction ss as [|s ss IH]; intros st id buf t c P Q HL TM M K SD NE G L.
+  - destruct buf; [congruence | cbn in L; lia].
+  - inversion G as [|? ? Gs Gss]; subst. cbn [map]. rewrite hrun_cons, in_app_iff.
+    assert (TF : timeout_fired st = false) by (unfold timeout_fired; rewrite TM; reflexivity).
+    unfold hstep at 1 2. rewrite P.
+    destruct (fw_flush_progress buf s NE Gs) as [FR|(FR & NE' & LT)].
+    + left. apply (C14_flush_ok_reports_ready st s id buf); auto. rewrite SD; discriminate.
+    + right. rewrite (do_poll_flush_pending st s id buf Q HL TF M K FR). cbn [fst].
+      cbn [length] in L.
+      eapply (IH _ id _ t c); try exact NE'; try exact Gss; try lia;
+        cbn [h_panicked h_queue h_halted h_timeout h_msg h_sink h_sending set_sink]; try eassumption; reflexivity.
+Qed.
+
+(* ------------------------------------------------------------------------------------------------ *)
+(* The stream that is held carries the most recent frame                                            *)
+(* ------------------------------------------------------------------------------------------------ *)
+
+Definition FJ (st : hstate) : Prop :=
+  forall id buf, h_sink st = SkReady id buf -> frame_of (h_frames st) id <> None ->
+  exists fr0 m, h_frames st = fr0 ++ [(id, m)].
+
+Lemma FJ_same st st' :
+  h_frames st' = h_frames st ->
+  (forall id buf, h_sink st' = SkReady id buf -> exists buf0, h_sink st = SkReady id buf0) ->
+  FJ st -> FJ st'.
+Proof.
+  intros F K H id buf E NF. destruct (K _ _ E) as [buf0 E0]. rewrite F in *. eapply H; eauto.
+Qed.
+
+Lemma FJ_poll_iter st s r st' s' o :
+  poll_iter encode st s = (r, st', s', o) -> FJ st -> FJ st'.
+Proof.
+  unfold poll_iter. destruct (h_queue st) as [|ev q].
+  2:{ intros [= <- <- <- <-]. apply FJ_same; cbn; eauto. }
+  destruct (h_halted st). { intros [= <- <- <- <-]. auto. }
+  destruct (timeout_fired st).
+  { unfold drop_sink. cbn [h_sink set_msg set_timeout].
+    destruct (h_sink st); intros [= <- <- <- <-]; intros _ id0 buf0 E; cbn in E; autorewrite with css in E; discriminate. }
+  destruct (h_msg st) as [m|] eqn:M, (h_sink st) as [| |id buf] eqn:K; try (intros [= <- <- <- <-]; auto).
+  - intros _ id0 buf0 E. discriminate.
+  - destruct (fr_res (fw_poll_ready buf s)); intros [= <- <- <- <-].
+    + intros _ id0 buf0 E _. autorewrite with css in *. cbn in *. inversion E; subst. eauto.
+    + intros _ id0 buf0 E. discriminate.
+    + apply FJ_same; cbn; [reflexivity|]. intros id0 buf0 [= <- <-]. rewrite K. eauto.
+  - destruct (fr_res (fw_poll_flush buf s)); intros [= <- <- <- <-].
+    + intros _ id0 buf0 E. autorewrite with css in E. discriminate.
+    + intros _ id0 buf0 E. autorewrite with css in E. discriminate.
+    + apply FJ_same; cbn; [reflexivity|]. intros id0 buf0 [= <- <-]. rewrite K. eauto.
+Qed.
+
+Lemma FJ_hpoll_loop fuel : forall st s, FJ st -> FJ (fst (hpoll_loop encode fuel st s)).
+Proof.
+  induction fuel as [|f IH]; intros st s H.
+  - cbn. apply (FJ_same st); cbn; eauto.
+  - rewrite hpoll_loop_S. destruct (poll_iter encode st s) as [[[r st'] s'] o] eqn:PI.
+    pose proof (FJ_poll_iter _ _ _ _ _ _ PI H) as H'.
+    destruct r; [exact H'| |]; specialize (IH st' s' H'); destruct (hpoll_loop encode f st' s'); exact IH.
+Qed.
+
+Lemma FJ_step st op outs ws : FI st outs ws -> FJ st -> FJ (fst (hstep encode st op)).
+Proof.
+  intros F H. unfold hstep. destruct (h_panicked st); [exact H|].
+  destruct op as [w| | |ms|s|s].
+  - unfold do_send_wantlist. destruct (h_halted st); [exact H|].
+    destruct (h_msg st); [apply (FJ_same st); cbn; eauto|].
+    destruct (h_sending st); try solve [apply (FJ_same st); cbn; eauto].
+    cbn [fst]. apply (FJ_same st); cbn; autorewrite with css; cbn; eauto.
+  - unfold do_set_stream. destruct (h_halted st); [apply (FJ_same st); cbn; eauto|].
+    unfold drop_sink. cbn [h_sink set_next].
+    assert (G : forall st1, h_frames st1 = h_frames st -> FJ (set_sink st1 (SkReady (h_next st) []))).
+    { intros st1 E id buf [= <- <-] NF. cbn in NF. rewrite E in NF. exfalso. apply NF.
+      apply frame_of_none. intros HI. apply (fi_lt _ _ _ _ _ _ _ F) in HI. lia. }
+    destruct (h_sink st); cbn [fst]; apply G; reflexivity.
+  - unfold do_alloc_failed. destruct (h_halted st); [exact H|].
+    destruct (h_sink st) eqn:K; cbn [fst]; try solve [apply (FJ_same st); cbn; eauto].
+    intros id buf E. discriminate.
+  - cbn. apply (FJ_same st); cbn; eauto.
+  - apply FJ_hpoll_loop. exact H.
+  - unfold do_poll_close. destruct (h_closing st); cbn [fst].
+    { apply (FJ_same st); cbn; eauto. }
+    cbn [h_sink set_msg set_closing].
+    destruct (h_sink st) as [| |id0 buf0]; intros id buf E; cbn in E;
+      destruct (h_sending st); autorewrite with css in E; discriminate.
+Qed.
+
+(* ------------------------------------------------------------------------------------------------ *)
+(* Invariants of runs that respect the contract (strict = true)                                     *)
+(* ------------------------------------------------------------------------------------------------ *)
+
+Fixpoint reports (outs : list hout) : list sending_report :=
+  match outs with
+  | [] => []
+  | HReport r :: o => r :: reports o
+  | _ :: o => reports o
+  end.
+
+Lemma reports_app a b : reports (a ++ b) = reports a ++ reports b.
+Proof. induction a as [|x a IH]; [reflexivity|]. destruct x; cbn; rewrite ?IH; reflexivity. Qed.
+
+Lemma reports_stream o : Forall (fun x => is_stream_out x = true) o -> reports o = [].
+Proof. induction 1 as [|x o Hx Ho IH]; [reflexivity|]. destruct x; try discriminate; exact IH. Qed.
+
+Fixpoint qstates (q : list hev) : list sending_state :=
+  match q with
+  | [] => []
+  | EvState s :: q' => s :: qstates q'
+  | EvClosing :: q' => qstates q'
+  end.
+
+Lemma qstates_app a b : qstates (a ++ b) = qstates a ++ qstates b.
+Proof. induction a as [|[s|] a IH]; cbn; rewrite ?IH; reflexivity. Qed.
+
+Lemma reports_evs q : reports (map hout_of_ev q) = map report_of (qstates q).
+Proof. induction q as [|[s|] q IH]; cbn; rewrite ?IH; reflexivity. Qed.
+
+(* the order in which a handler on connection c may report: RequestReceived after Ready (one accepted
+   wantlist), then optionally Sending, then exactly one of Ready / Failed; nothing follows Failed *)
+Definition allowed (c : conn) (a b : sending_report) : Prop :=
+  match a, b with
+  | RpReady, RpRequestReceived c' => c' = c
+  | RpRequestReceived _, RpSending c' => c' = c
+  | RpRequestReceived _, RpFailed c' => c' = c
+  | RpSending _, RpReady => True
+  | RpSending _, RpFailed c' => c' = c
+  | _, _ => False
+  end.
+
+Fixpoint chain_ok (c : conn) (r : sending_report) (l : list sending_report) : Prop :=
+  match l with
+  | [] => True
+  | x :: l' => allowed c r x /\ chain_ok c x l'
+  end.
+
+Lemma last_cons_default {A} (l : list A) : forall a d d', last (a :: l) d = last (a :: l) d'.
+Proof. induction l as [|b l IH]; intros a d d'; [reflexivity|]. cbn in *. apply (IH b). Qed.
+
+Lemma chain_ok_snoc c l : forall r x, chain_ok c r l -> allowed c (last l r) x -> chain_ok c r (l ++ [x]).
+Proof.
+  induction l as [|y l IH]; intros r x H A; cbn [chain_ok app] in *; [tauto|].
+  destruct H as [H1 H2]. split; [exact H1|]. apply IH; [exact H2|].
+  destruct l as [|z l]; [exact A|]. rewrite (last_cons_default l z y r).
+  change (last (y :: z :: l) r) with (last (z :: l) r) in A. exact A.
+Qed.
+
+(* what has been reported plus what is queued to be reported *)
+Definition rtrace (st : hstate) (outs : list hout) : list sending_report :=
+  reports outs ++ map report_of (qstates (h_queue st)).
+
+Definition delivered (st : hstate) (outs : list hout) (ws : list wantlist) : Prop :=
+  exists fr0 id w ws0,
+    h_frames st = fr0 ++ [(id, wantlist_message w)] /\ ws = ws0 ++ [w]
+    /\ wrote_on id outs = encode (wantlist_message w).
+
+Record ZI (st : hstate) (e : env) (outs : list hout) (ws : list wantlist) : Prop := MkZI {
+  z_close : h_closing st = e_closed e;
+  z_msg : forall m, h_msg st = Some m -> exists t, h_sending st = SsRequestReceived t (h_conn st);
+  z_tmo : h_closing st = false -> h_timeout st <> None -> h_msg st <> None;
+  z_req : h_halted st = false -> h_closing st = false -> h_sink st = SkRequested -> h_msg st <> None;
+  z_frm : h_halted st = false -> h_closing st = false ->
+          forall id buf, h_sink st = SkReady id buf -> h_msg st = None -> frame_of (h_frames st) id <> None;
+  z_all : h_halted st = false -> h_closing st = false ->
+          map snd (h_frames st) ++ option_list (h_msg st) = map wantlist_message ws;
+  z_chain : chain_ok (h_conn st) RpReady (rtrace st outs)
+            /\ last (rtrace st outs) RpReady = report_of (h_sending st);
+  z_rdy : h_sending st = SsReady -> ws = [] \/ delivered st outs ws;
+  z_nil : ws = [] -> rtrace st outs = [];
+  z_halt : h_halted st = true -> h_sending st = SsFailed (h_conn st)
+}.
+
+Lemma env_out_closed e o : e_closed (env_out e o) = e_closed e.
+Proof. destruct o; try reflexivity. destruct r; reflexivity. Qed.
+
+Lemma fold_env_out_closed o : forall e, e_closed (fold_left env_out o e) = e_closed e.
+Proof. induction o as [|x o IH]; intros e; [reflexivity|]. cbn. rewrite IH. apply env_out_closed. Qed.
+
+Lemma delivered_grow st st' outs o ws :
+  h_frames st' = h_frames st -> no_writes o -> delivered st outs ws -> delivered st' (outs ++ o) ws.
+Proof.
+  intros F W (fr0 & id & w & ws0 & E1 & E2 & E3). exists fr0, id, w, ws0.
+  rewrite F, wrote_on_app, W, app_nil_r. auto.
+Qed.
+
+Lemma stream_out_no_reports_ev ev : Forall (fun x => is_stream_out x = true) [hout_of_ev ev] -> False.
+Proof. intros H. inversion H as [|? ? Hx _]. destruct ev; discriminate. Qed.
+
+(* pushing a state change keeps the report chain legal if the edge is allowed *)
+Lemma chain_css st s outs :
+  chain_ok (h_conn st) RpReady (rtrace st outs) /\ last (rtrace st outs) RpReady = report_of (h_sending st) ->
+  allowed (h_conn st) (report_of (h_sending st)) (report_of s) ->
+  chain_ok (h_conn st) RpReady (rtrace (change_sending_state st s) outs)
+  /\ last (rtrace (change_sending_state st s) outs) RpReady = report_of s.
+Proof.
+  intros [C L] A. unfold rtrace in *. rewrite css_queue. destruct (ss_eqb (h_sending st) s) eqn:E.
+  - apply ss_eqb_spec in E. subst s. rewrite app_nil_r. auto.
+  - rewrite qstates_app, map_app, app_assoc. cbn [qstates map]. split.
+    + apply chain_ok_snoc; [exact C|]. rewrite L. exact A.
+    + apply last_last.
+Qed.
+
+Lemma map_snoc_inv {A B} (f : A -> B) (g : wantlist -> B) (a : list A) (x : A) : forall ws,
+  map f (a ++ [x]) = map g ws -> exists ws0 w, ws = ws0 ++ [w] /\ f x = g w.
+Proof.
+  intros ws H. destruct (@exists_last _ ws) as (ws0 & w & ->).
+  { intros ->. destruct a; discriminate. }
+  exists ws0, w. split; [reflexivity|]. rewrite !map_app in H. cbn in H.
+  apply app_inj_tail in H. tauto.
+Qed.
+
+Lemma frame_of_last fr0 id m : NoDup (map fst (fr0 ++ [(id, m)])) -> frame_of (fr0 ++ [(id, m)]) id = Some m.
+Proof.
+  intros ND. rewrite frame_of_app. destruct (frame_of fr0 id) eqn:E.
+  - exfalso. apply frame_of_in in E. rewrite map_app in ND. cbn in ND.
+    apply NoDup_remove_2 in ND. rewrite app_nil_r in ND. apply ND. apply (in_map fst) in E. exact E.
+  - cbn. rewrite N.eqb_refl. reflexivity.
+Qed.
+
+Lemma ZI_ext st st' e e' outs outs' ws :
+  ZI st e outs ws ->
+  e_closed e' = e_closed e ->
+  h_closing st' = h_closing st -> h_msg st' = h_msg st -> h_sending st' = h_sending st ->
+  h_conn st' = h_conn st -> h_timeout st' = h_timeout st -> h_halted st' = h_halted st ->
+  h_frames st' = h_frames st ->
+  (h_sink st' = SkRequested -> h_sink st = SkRequested \/ h_msg st <> None) ->
+  (forall id buf, h_sink st' = SkReady id buf -> exists buf0, h_sink st = SkReady id buf0) ->
+  rtrace st' outs' = rtrace st outs ->
+  (h_sending st = SsReady -> exists o, outs' = outs ++ o /\ no_writes o) ->
+  ZI st' e' outs' ws.
+Proof.
+  intros [Z1 Z2 Z3 Z4 Z5 Z6 Z7 Z8 Z9 Z10] E C M S CN T H F K1 K2 R W.
+  constructor; rewrite ?E, ?C, ?M, ?S, ?CN, ?T, ?H, ?F, ?R; auto.
+  - intros HL CL K. destruct (K1 K) as [K'|K']; auto.
+  - intros HL CL id buf K. destruct (K2 _ _ K) as [buf0 K0]. eauto.
+  - intros SR. destruct (Z8 SR) as [->|D]; [left; reflexivity|right].
+    destruct (W SR) as (o & -> & NW). eapply delivered_grow; eauto.
+Qed.
+
+Lemma rtrace_stream st st' outs o :
+  h_queue st' = h_queue st -> Forall (fun x => is_stream_out x = true) o -> rtrace st' (outs ++ o) = rtrace st outs.
+Proof. intros Q SO. unfold rtrace. rewrite Q, reports_app, (reports_stream _ SO), app_nil_r. reflexivity. Qed.
+
+Lemma no_writes_sevs_other id evs : wrote_of evs = [] -> no_writes (map (hout_of_sev id) evs).
+Proof. intros W id'. rewrite wrote_on_sevs, W. destruct (id =? id'); reflexivity. Qed.
+
+Lemma ZI_poll_iter st e s r st' s' o outs ws :
+  poll_iter encode st s = (r, st', s', o) -> h_closing st = false ->
+  NP st e -> FI st outs ws -> FJ st -> ZI st e outs ws ->
+  ZI st' (fold_left env_out (o ++ iter_out r) e) (outs ++ o ++ iter_out r) ws.
+Proof.
+  intros PI CL N F J Z.
+  assert (EC : e_closed (fold_left env_out (o ++ iter_out r) e) = e_closed e) by apply fold_env_out_closed.
+  revert EC. generalize (fold_left env_out (o ++ iter_out r) e) as e'. intros e' EC.
+  pose proof (poll_iter_outs_stream _ _ _ _ _ _ PI) as SO.
+  revert PI. unfold poll_iter. destruct (h_queue st) as [|ev q] eqn:Q.
+  { (* queue empty *)
+  destruct (h_halted st) eqn:HL.
+  { intros [= <- <- <- <-]. cbn [iter_out app]. rewrite app_nil_r.
+    eapply ZI_ext; eauto. intros _. exists []. rewrite app_nil_r. split; [reflexivity | apply no_writes_nil]. }
+  destruct (timeout_fired st) eqn:TF.
+  { (* timeout *)
+    unfold drop_sink. cbn [h_sink set_msg set_timeout].
+    assert (TS : h_timeout st <> None).
+    { unfold timeout_fired in TF. destruct (h_timeout st); [discriminate|discriminate]. }
+    pose proof (z_tmo _ _ _ _ Z CL TS) as MS.
+    destruct (h_msg st) as [m|] eqn:M; [|congruence].
+    destruct (z_msg _ _ _ _ Z m M) as [t SD].
+    assert (G : forall k o1, Forall (fun x => is_stream_out x = true) o1 ->
+      ZI (set_halted (change_sending_state (set_sink (set_msg (set_timeout st None) None) k) (SsFailed (h_conn st))) true)
+         e' (outs ++ o1 ++ []) ws).
+    { intros k o1 SO1. rewrite app_nil_r.
+      set (st1 := set_sink (set_msg (set_timeout st None) None) k).
+      assert (CH : chain_ok (h_conn st1) RpReady (rtrace (change_sending_state st1 (SsFailed (h_conn st))) (outs ++ o1))
+                   /\ last (rtrace (change_sending_state st1 (SsFailed (h_conn st))) (outs ++ o1)) RpReady
+                      = report_of (SsFailed (h_conn st))).
+      { apply chain_css.
+        - rewrite (rtrace_stream st st1 outs o1 eq_refl SO1). exact (z_chain _ _ _ _ Z).
+        - subst st1. cbn. rewrite SD. reflexivity. }
+      constructor; cbn [h_closing h_msg h_sending h_conn h_timeout h_halted h_frames h_sink set_halted];
+        autorewrite with css; subst st1; cbn [h_closing h_msg h_sending h_conn h_timeout h_halted h_frames h_sink set_sink set_msg set_timeout];
+        try congruence; try discriminate.
+      - rewrite EC. exact (z_close _ _ _ _ Z).
+      - exact CH.
+      - intros ->. pose proof (z_all _ _ _ _ Z HL CL) as A. rewrite M in A. cbn in A.
+        destruct (map snd (h_frames st)); discriminate. }
+    destruct (h_sink st); intros [= <- <- <- <-]; apply G; repeat constructor. }
+  destruct (h_msg st) as [m|] eqn:M, (h_sink st) as [| |id buf] eqn:K.
+  - (* open_new_substream *)
+    intros [= <- <- <- <-]. cbn [iter_out app].
+    eapply ZI_ext; eauto; cbn; try congruence.
+    + intros _. right. congruence.
+    + unfold rtrace. cbn. rewrite reports_app. cbn. rewrite app_nil_r. reflexivity.
+    + intros _. exists [HOpenStream]. split; [reflexivity | intros ?; reflexivity].
+  - intros [= <- <- <- <-]. cbn [iter_out app]. rewrite app_nil_r.
+    eapply ZI_ext; eauto. intros _. exists []. rewrite app_nil_r. split; [reflexivity | apply no_writes_nil].
+  - (* Some, Ready *)
+    destruct (z_msg _ _ _ _ Z m M) as [t SD].
+    destruct (fr_res (fw_poll_ready buf s)) eqn:FR; intros [= <- <- <- <-]; cbn [iter_out]; rewrite app_nil_r.
+    + (* start_send *)
+      set (stA := set_timeout (add_frame (set_sink (set_msg st None) (SkReady id (fw_start_send (fr_buf (fw_poll_ready buf s)) (encode m)))) (id, m)) None).
+      set (o1 := map (hout_of_sev id) (fr_evs (fw_poll_ready buf s))) in *.
+      assert (CH : chain_ok (h_conn stA) RpReady (rtrace (change_sending_state stA (SsSending (h_now st) (h_conn st))) (outs ++ o1))
+                   /\ last (rtrace (change_sending_state stA (SsSending (h_now st) (h_conn st))) (outs ++ o1)) RpReady
+                      = report_of (SsSending (h_now st) (h_conn st))).
+      { apply chain_css.
+        - rewrite (rtrace_stream st stA outs o1 eq_refl SO). exact (z_chain _ _ _ _ Z).
+        - subst stA. cbn. rewrite SD. reflexivity. }
+      pose proof (z_all _ _ _ _ Z HL CL) as A. rewrite M in A. cbn in A.
+      constructor; cbn [h_closing h_msg h_sending h_conn h_timeout h_halted h_frames h_sink];
+        autorewrite with css; subst stA; cbn [h_closing h_msg h_sending h_conn h_timeout h_halted h_frames h_sink set_sink set_msg set_timeout add_frame];
+        try congruence; try discriminate.
+      * rewrite EC. exact (z_close _ _ _ _ Z).
+      * intros _ _ id0 buf0 [= <- <-] _. rewrite frame_of_app. destruct (frame_of (h_frames st) id); [discriminate|].
+        cbn. rewrite N.eqb_refl. discriminate.
+      * intros _ _. rewrite map_app. cbn. rewrite app_nil_r. exact A.
+      * exact CH.
+      * intros ->. destruct (map snd (h_frames st)); discriminate.
+    + (* poll_ready error *)
+      eapply ZI_ext; eauto; cbn; try congruence; try discriminate;
+        try (apply rtrace_stream; [reflexivity | exact SO]); try (rewrite SD; discriminate).
+    + eapply ZI_ext; eauto; cbn; try congruence; try discriminate;
+        try (apply rtrace_stream; [reflexivity | exact SO]); try (rewrite SD; discriminate);
+        try (intros id0 buf0 [= <- <-]; rewrite K; eauto).
+  - intros [= <- <- <- <-]. cbn [iter_out app]. rewrite app_nil_r.
+    eapply ZI_ext; eauto. intros _. exists []. rewrite app_nil_r. split; [reflexivity | apply no_writes_nil].
+  - intros [= <- <- <- <-]. cbn [iter_out app]. rewrite app_nil_r.
+    eapply ZI_ext; eauto. intros _. exists []. rewrite app_nil_r. split; [reflexivity | apply no_writes_nil].
+  - (* None, Ready *)
+    pose proof (z_frm _ _ _ _ Z HL CL id buf K M) as NF.
+    unfold FI in F. rewrite K, M in F.
+    destruct (fi_one _ _ _ _ _ _ _ F id buf eq_refl NF) as (_ & t & c & SD).
+    pose proof (fi_sink _ _ _ _ _ _ _ F id buf eq_refl) as [_ WB].
+    destruct (J id buf K NF) as (fr0 & m & FR0).
+    pose proof (fi_nodup _ _ _ _ _ _ _ F) as ND. rewrite FR0 in ND.
+    pose proof (z_all _ _ _ _ Z HL CL) as A. rewrite M, FR0 in A. cbn [option_list] in A. rewrite app_nil_r in A.
+    destruct (map_snoc_inv snd wantlist_message fr0 (id, m) ws A) as (ws0 & w & EW & EM). cbn in EM.
+    assert (WNE : ws <> []) by (rewrite EW; destruct ws0; discriminate).
+    destruct (fr_res (fw_poll_flush buf s)) eqn:FR; intros [= <- <- <- <-]; cbn [iter_out]; rewrite app_nil_r.
+    + (* flush Ok *)
+      set (st1 := set_sink st SkNone).
+      match type of SO with Forall _ ?x => set (o1 := x) in * end.
+      assert (CH : chain_ok (h_conn st1) RpReady (rtrace (change_sending_state st1 SsReady) (outs ++ o1))
+                   /\ last (rtrace (change_sending_state st1 SsReady) (outs ++ o1)) RpReady = report_of SsReady).
+      { apply chain_css.
+        - rewrite (rtrace_stream st st1 outs o1 eq_refl SO). exact (z_chain _ _ _ _ Z).
+        - subst st1. cbn. rewrite SD. exact I. }
+      constructor; cbn [h_closing h_msg h_sending h_conn h_timeout h_halted h_frames h_sink];
+        autorewrite with css; subst st1; cbn [h_closing h_msg h_sending h_conn h_timeout h_halted h_frames h_sink set_sink];
+        try congruence; try discriminate.
+      * rewrite EC. exact (z_close _ _ _ _ Z).
+      * exact (z_tmo _ _ _ _ Z).
+      * intros _ _. rewrite M, FR0. cbn. rewrite app_nil_r. exact A.
+      * exact CH.
+      * intros _. right. exists fr0, id, w, ws0. autorewrite with css. cbn [h_frames set_sink]. rewrite FR0, EM. split; [reflexivity|]. split; [exact EW|].
+        subst o1. rewrite !wrote_on_app, !wrote_on_sevs, N.eqb_refl. cbn [wrote_on]. rewrite app_nil_r.
+        pose proof (fw_poll_flush_conserve s buf) as CV. rewrite (fw_poll_flush_ok s buf FR), app_nil_r in CV.
+        pose proof (fw_poll_close_conserve (fr_script (fw_poll_flush buf s)) (fr_buf (fw_poll_flush buf s))) as CC.
+        rewrite (fw_poll_flush_ok s buf FR) in CC. apply app_eq_nil in CC as [CC _].
+        rewrite CV, (fw_poll_flush_ok s buf FR), CC, app_nil_r, WB. unfold FB. rewrite FR0, (frame_of_last _ _ _ ND), EM. reflexivity.
+    + (* flush error *)
+      set (st1 := set_sink st SkNone).
+      match type of SO with Forall _ ?x => set (o1 := x) in * end.
+      assert (CH : chain_ok (h_conn st1) RpReady (rtrace (change_sending_state st1 (SsFailed (h_conn st))) (outs ++ o1))
+                   /\ last (rtrace (change_sending_state st1 (SsFailed (h_conn st))) (outs ++ o1)) RpReady
+                      = report_of (SsFailed (h_conn st))).
+      { apply chain_css.
+        - rewrite (rtrace_stream st st1 outs o1 eq_refl SO). exact (z_chain _ _ _ _ Z).
+        - subst st1. cbn. rewrite SD. reflexivity. }
+      constructor; cbn [h_closing h_msg h_sending h_conn h_timeout h_halted h_frames h_sink];
+        autorewrite with css; subst st1; cbn [h_closing h_msg h_sending h_conn h_timeout h_halted h_frames h_sink set_sink];
+        try congruence; try discriminate.
+      * rewrite EC. exact (z_close _ _ _ _ Z).
+      * exact (z_tmo _ _ _ _ Z).
+      * intros _ _. rewrite M, FR0. cbn. rewrite app_nil_r. exact A.
+      * exact CH.
+    + (* flush pending *)
+      eapply ZI_ext; eauto; cbn; try congruence; try discriminate;
+        try (apply rtrace_stream; [reflexivity | exact SO]); try (rewrite SD; discriminate);
+        try (intros id0 buf0 [= <- <-]; rewrite K; eauto). }
+  (* pop *)
+  intros [= <- <- <- <-]. cbn [iter_out app].
+  eapply ZI_ext; eauto; cbn; try congruence; try discriminate.
+  - unfold rtrace. cbn [h_queue set_queue]. rewrite reports_app, Q. destruct ev; cbn; rewrite <- ?app_assoc; reflexivity.
+  - intros _. exists [hout_of_ev ev]. split; [reflexivity | apply no_writes_iter_out_ev].
+Qed.
+
+Lemma ZI_hpoll_loop fuel : forall st e s outs ws,
+  h_closing st = false -> NP st e -> FI st outs ws -> FJ st -> ZI st e outs ws ->
+  ZI (fst (hpoll_loop encode fuel st s)) (fold_left env_out (snd (hpoll_loop encode fuel st s)) e)
+     (outs ++ snd (hpoll_loop encode fuel st s)) ws.
+Proof.
+  induction fuel as [|f IH]; intros st e s outs ws CL N F J Z.
+  - cbn. rewrite app_nil_r. eapply ZI_ext; eauto.
+    intros _. exists []. rewrite app_nil_r. split; [reflexivity | apply no_writes_nil].
+  - rewrite hpoll_loop_S. destruct (poll_iter encode st s) as [[[r st'] s'] o] eqn:PI.
+    pose proof (ZI_poll_iter _ _ _ _ _ _ _ _ _ PI CL N F J Z) as Z'.
+    pose proof (NP_poll_iter _ _ _ _ _ _ _ PI N) as N'.
+    pose proof (FI_poll_iter _ _ _ _ _ _ _ _ PI F) as F'.
+    pose proof (FJ_poll_iter _ _ _ _ _ _ PI J) as J'.
+    pose proof (poll_iter_flags _ _ _ _ _ _ PI) as (_ & _ & _ & _ & _ & CL').
+    destruct r; cbn [iter_out] in *.
+    + rewrite app_nil_r in *. exact Z'.
+    + specialize (IH st' _ s' _ ws ltac:(congruence) N' F' J' Z').
+      destruct (hpoll_loop encode f st' s') as [st'' o']. cbn [fst snd] in *.
+      replace (o ++ o0 :: o') with ((o ++ [o0]) ++ o') by (rewrite <- app_assoc; reflexivity).
+      rewrite fold_left_app, app_assoc. rewrite <- app_assoc in IH. rewrite app_assoc in IH. exact IH.
+    + rewrite app_nil_r in *.
+      specialize (IH st' _ s' _ ws ltac:(congruence) N' F' J' Z').
+      destruct (hpoll_loop encode f st' s') as [st'' o']. cbn [fst snd] in *.
+      rewrite fold_left_app, app_assoc. exact IH.
+Qed.
+
+Lemma ZI_init c : ZI (h_init c) env_init [] [].
+Proof.
+  constructor; cbn; try congruence; try discriminate; auto.
+Qed.
+
+Lemma rtrace_evs st st' outs :
+  h_queue st' = [] -> rtrace st' (outs ++ map hout_of_ev (h_queue st)) = rtrace st outs.
+Proof. intros Q. unfold rtrace. rewrite Q, reports_app, reports_evs. cbn. rewrite app_nil_r. reflexivity. Qed.
+
+Lemma ZI_step st e op outs ws :
+  NPop st e -> FI st outs ws -> FJ st -> ZI st e outs ws -> op_allowed true e op = true ->
+  ZI (fst (hstep encode st op)) (env_step e op (snd (hstep encode st op)))
+     (outs ++ snd (hstep encode st op)) (ws ++ op_ws op).
+Proof.
+  intros (N & X & D) F J Z AL. pose proof N as [P A B C E].
+  unfold hstep, env_step. rewrite P.
+  destruct op as [w| | |ms|s|s]; cbn [op_allowed op_ws] in *; rewrite ?andb_true_iff, ?negb_true_iff in AL; rewrite ?app_nil_r.
+  - (* HSendWantlist *)
+    destruct AL as [R CLe]. cbn in CLe. pose proof (z_close _ _ _ _ Z) as CL. rewrite CLe in CL.
+    unfold do_send_wantlist. destruct (h_halted st) eqn:HL.
+    + cbn [fst snd fold_left env_op]. rewrite app_nil_r.
+      pose proof (z_halt _ _ _ _ Z HL) as SF. destruct Z as [Z1 Z2 Z3 Z4 Z5 Z6 Z7 Z8 Z9 Z10].
+      constructor; auto; try congruence.
+      intros E0. destruct ws; discriminate.
+    + destruct D as [D|D]; [|congruence].
+      rewrite D in B. specialize (B eq_refl R). rewrite (C B), B. cbn [fst snd fold_left env_op]. rewrite app_nil_r.
+      set (st1 := set_msg st (Some (wantlist_message w))).
+      assert (CH : chain_ok (h_conn st1) RpReady (rtrace (change_sending_state st1 (SsRequestReceived (h_now st) (h_conn st))) outs)
+                   /\ last (rtrace (change_sending_state st1 (SsRequestReceived (h_now st) (h_conn st))) outs) RpReady
+                      = report_of (SsRequestReceived (h_now st) (h_conn st))).
+      { apply chain_css.
+        - exact (z_chain _ _ _ _ Z).
+        - subst st1. cbn. rewrite B. reflexivity. }
+      pose proof (z_all _ _ _ _ Z HL CL) as AW. rewrite (C B) in AW. cbn in AW. rewrite app_nil_r in AW.
+      constructor; cbn [h_closing h_msg h_sending h_conn h_timeout h_halted h_frames h_sink set_timeout];
+        autorewrite with css; subst st1; cbn [h_closing h_msg h_sending h_conn h_timeout h_halted h_frames h_sink set_msg];
+        try congruence; try discriminate.
+      * exact (z_close _ _ _ _ Z).
+      * intros m _. eauto.
+      * intros _ _. rewrite map_app, AW. reflexivity.
+      * exact CH.
+      * intros E0. destruct ws; discriminate.
+  - (* HSetStream *)
+    destruct AL as [O CLe]. cbn in CLe. pose proof (z_close _ _ _ _ Z) as CL. rewrite CLe in CL.
+    unfold do_set_stream. destruct (h_halted st) eqn:HL.
+    + cbn [fst snd env_op fold_left]. eapply ZI_ext; eauto; cbn; try congruence.
+      * unfold rtrace. rewrite reports_app. cbn. rewrite app_nil_r. reflexivity.
+      * intros _. exists [HDropped (h_next st)]. split; [reflexivity | apply no_writes_dropped].
+    + destruct (E O) as [K|[K|K]]; [|congruence|congruence].
+      pose proof (z_req _ _ _ _ Z HL CL K) as MS.
+      unfold drop_sink. cbn [h_sink set_next]. rewrite K. cbn [fst snd env_op fold_left]. rewrite app_nil_r.
+      destruct Z as [Z1 Z2 Z3 Z4 Z5 Z6 Z7 Z8 Z9 Z10].
+      constructor; cbn; auto; try congruence; try discriminate.
+  - (* HAllocFailed *)
+    destruct AL as [O CLe]. cbn in CLe. pose proof (z_close _ _ _ _ Z) as CL. rewrite CLe in CL.
+    unfold do_alloc_failed. destruct (h_halted st) eqn:HL.
+    + cbn [fst snd env_op fold_left]. rewrite app_nil_r. eapply ZI_ext; eauto.
+      intros _. exists []. rewrite app_nil_r. split; [reflexivity | apply no_writes_nil].
+    + destruct (E O) as [K|[K|K]]; [|congruence|congruence].
+      rewrite K. cbn [fst snd env_op fold_left]. rewrite app_nil_r.
+      eapply ZI_ext; eauto; cbn; try congruence; try discriminate.
+      intros _. exists []. rewrite app_nil_r. split; [reflexivity | apply no_writes_nil].
+  - (* HAdvance *)
+    cbn [fst snd env_op fold_left]. eapply ZI_ext; eauto.
+    intros _. exists []. rewrite app_nil_r. split; [reflexivity | apply no_writes_nil].
+  - (* HPoll *)
+    cbn in AL. pose proof (z_close _ _ _ _ Z) as CL. rewrite AL in CL.
+    cbn [env_op]. unfold do_poll. apply ZI_hpoll_loop; auto.
+  - (* HPollClose *)
+    cbn [env_op]. unfold do_poll_close.
+    set (e1 := MkEnv (e_ready e) (e_open e) true).
+    destruct (h_closing st) eqn:CLg.
+    + cbn [fst snd app]. pose proof (z_close _ _ _ _ Z) as ZC.
+      eapply ZI_ext; eauto; cbn [h_closing h_msg h_sending h_conn h_timeout h_halted h_frames h_sink set_queue]; try congruence; try discriminate.
+      * rewrite fold_env_out_closed. cbn. congruence.
+      * apply rtrace_evs. reflexivity.
+      * intros _. eexists. split; [reflexivity | apply no_writes_ev].
+    + (* first poll_close *)
+      cbn [h_sink set_msg set_closing].
+      assert (NRK : h_sending st = SsReady -> forall id buf, h_sink st <> SkReady id buf).
+      { intros SR id buf K. destruct (h_halted st) eqn:HL.
+        - pose proof (z_halt _ _ _ _ Z HL). congruence.
+        - pose proof (z_frm _ _ _ _ Z HL CLg id buf K (C SR)) as NF.
+          unfold FI in F. rewrite K in F.
+          destruct (fi_one _ _ _ _ _ _ _ F id buf eq_refl NF) as (_ & t & c & SD). congruence. }
+      assert (G : forall o, Forall (fun x => is_stream_out x = true) o -> (h_sending st = SsReady -> o = []) ->
+        let st2 := set_sink (set_msg (set_closing st true) None) SkNone in
+        let st3 := match h_sending st2 with
+                   | SsRequestReceived _ _ | SsSending _ _ => change_sending_state st2 (SsFailed (h_conn st))
+                   | _ => st2 end in
+        let st4 := set_queue st3 (h_queue st3 ++ [EvClosing]) in
+        ZI (set_queue st4 []) (fold_left env_out (o ++ map hout_of_ev (h_queue st4)) e1)
+           (outs ++ o ++ map hout_of_ev (h_queue st4)) ws).
+      { intros o SO OR st2 st3 st4.
+        assert (CH3 : (chain_ok (h_conn st) RpReady (rtrace st3 (outs ++ o))
+                       /\ last (rtrace st3 (outs ++ o)) RpReady = report_of (h_sending st3))
+                      /\ (h_sending st3 = h_sending st \/ h_sending st3 = SsFailed (h_conn st) /\ h_sending st <> SsReady)).
+        { assert (R2 : rtrace st2 (outs ++ o) = rtrace st outs) by (apply rtrace_stream; [reflexivity | exact SO]).
+          assert (HS2 : h_sending st2 = h_sending st) by reflexivity.
+          assert (HC2 : h_conn st2 = h_conn st) by reflexivity.
+          pose proof (z_chain _ _ _ _ Z) as ZCH. rewrite <- R2, <- HS2 in ZCH.
+          assert (CSS : forall t c, (h_sending st2 = SsRequestReceived t c \/ h_sending st2 = SsSending t c) ->
+                   (chain_ok (h_conn st) RpReady (rtrace (change_sending_state st2 (SsFailed (h_conn st))) (outs ++ o))
+                    /\ last (rtrace (change_sending_state st2 (SsFailed (h_conn st))) (outs ++ o)) RpReady
+                       = report_of (h_sending (change_sending_state st2 (SsFailed (h_conn st)))))
+                   /\ (h_sending (change_sending_state st2 (SsFailed (h_conn st))) = h_sending st \/
+                       h_sending (change_sending_state st2 (SsFailed (h_conn st))) = SsFailed (h_conn st) /\ h_sending st <> SsReady)).
+          { intros t c SD. rewrite css_sending. split.
+            - rewrite <- HC2. apply chain_css; [rewrite HC2; exact ZCH|].
+              destruct SD as [-> | ->]; reflexivity.
+            - right. split; [reflexivity|]. rewrite <- HS2. destruct SD as [-> | ->]; discriminate. }
+          subst st3. destruct (h_sending st2) eqn:SD.
+          - split; [rewrite ?SD; exact ZCH | left; congruence].
+          - split; [rewrite ?SD; exact ZCH | left; congruence].
+          - apply (CSS t c). left; reflexivity.
+          - apply (CSS t c). right; reflexivity.
+          - split; [rewrite ?SD; exact ZCH | left; congruence]. }
+        destruct CH3 as [CH3 S3].
+        assert (F3 : h_frames st3 = h_frames st /\ h_halted st3 = h_halted st /\ h_conn st3 = h_conn st
+                     /\ h_closing st3 = true /\ h_msg st3 = None /\ h_timeout st3 = h_timeout st).
+        { subst st3. destruct (h_sending st2); autorewrite with css; subst st2; cbn; auto 10. }
+        destruct F3 as (F31 & F32 & F33 & F34 & F35 & F36).
+        assert (RT : rtrace (set_queue st4 []) (outs ++ o ++ map hout_of_ev (h_queue st4)) = rtrace st3 (outs ++ o)).
+        { subst st4. unfold rtrace. cbn [h_queue set_queue]. rewrite !reports_app, reports_evs, qstates_app.
+          cbn [qstates map app]. rewrite ?app_nil_r, <- ?app_assoc. reflexivity. }
+        constructor; rewrite ?RT; subst st4; cbn [h_closing h_msg h_sending h_conn h_timeout h_halted h_frames h_sink set_queue];
+          rewrite ?F31, ?F32, ?F33, ?F34, ?F35, ?F36; try congruence; try discriminate.
+        - rewrite fold_env_out_closed. reflexivity.
+        - intros SR. destruct S3 as [S3|[S3 _]]; [|congruence]. rewrite S3 in SR.
+          destruct (z_rdy _ _ _ _ Z SR) as [->|DL]; [left; reflexivity|right].
+          rewrite (OR SR). cbn [app]. eapply delivered_grow; [exact F31 | apply no_writes_ev | exact DL].
+        - intros ->.
+          pose proof (z_nil _ _ _ _ Z eq_refl) as RN. pose proof (z_chain _ _ _ _ Z) as [_ LS]. rewrite RN in LS. cbn in LS.
+          symmetry in LS. apply report_ready in LS.
+          destruct S3 as [S3|[_ S3]]; [|congruence].
+          unfold rtrace in *. rewrite reports_app, (reports_stream _ SO), app_nil_r.
+          apply app_eq_nil in RN as [RN1 RN2]. rewrite RN1. cbn.
+          subst st3. change (h_sending st2) with (h_sending st). rewrite LS. exact RN2.
+        - intros HL. pose proof (z_halt _ _ _ _ Z HL) as SF.
+          destruct S3 as [S3|[S3 _]]; congruence. }
+      destruct (h_sink st) as [| |id buf] eqn:K; cbn [fst snd].
+      * apply (G []); [constructor | reflexivity].
+      * apply (G []); [constructor | reflexivity].
+      * apply G.
+        -- rewrite Forall_app. split; [apply sev_outs_stream | repeat constructor].
+        -- intros SR. exfalso. apply (NRK SR id buf). first [reflexivity | exact K].
+Qed.
+
+Lemma SI_run ops : forall st e outs ws,
+  NPop st e -> FI st outs ws -> FJ st -> ZI st e outs ws ->
+  disciplined_from encode true st e ops = true ->
+  exists e', NPop (fst (hrun encode st ops)) e'
+    /\ FI (fst (hrun encode st ops)) (outs ++ snd (hrun encode st ops)) (ws ++ sent_ws ops)
+    /\ FJ (fst (hrun encode st ops))
+    /\ ZI (fst (hrun encode st ops)) e' (outs ++ snd (hrun encode st ops)) (ws ++ sent_ws ops).
+Proof.
+  induction ops as [|op ops IH]; intros st e outs ws N F J Z D.
+  - exists e. cbn. rewrite !app_nil_r. auto.
+  - cbn [disciplined_from] in D. apply andb_true_iff in D as [AL D].
+    destruct (NPop_step st e op N AL) as [N' _].
+    pose proof (FI_step st op outs ws F) as F'.
+    pose proof (FJ_step st op outs ws F J) as J'.
+    pose proof (ZI_step st e op outs ws N F J Z AL) as Z'.
+    unfold hrun in *. cbn [hrun_trace].
+    destruct (hstep encode st op) as [st1 o1]. cbn [fst snd] in *.
+    destruct (IH st1 _ _ _ N' F' J' Z' D) as (e' & N2 & F2 & J2 & Z2).
+    destruct (hrun_trace encode st1 ops) as [st2 os]. cbn [fst snd concat] in *.
+    exists e'.
+    replace (ws ++ sent_ws (op :: ops)) with ((ws ++ op_ws op) ++ sent_ws ops).
+    2:{ rewrite <- app_assoc. f_equal. destruct op; reflexivity. }
+    rewrite app_assoc. auto.
+Qed.
+
+Lemma hstep_conn st op : h_conn (fst (hstep encode st op)) = h_conn st.
+Proof.
+  unfold hstep. destruct (h_panicked st); [reflexivity|]. destruct op as [w| | |ms|s|s].
+  - unfold do_send_wantlist. destruct (h_halted st); [reflexivity|]. destruct (h_msg st); [reflexivity|].
+    destruct (h_sending st); try reflexivity. cbn. autorewrite with css. reflexivity.
+  - unfold do_set_stream. destruct (h_halted st); [reflexivity|]. unfold drop_sink. cbn [h_sink set_next].
+    destruct (h_sink st); reflexivity.
+  - unfold do_alloc_failed. destruct (h_halted st); [reflexivity|]. destruct (h_sink st); reflexivity.
+  - reflexivity.
+  - unfold do_poll. generalize (poll_fuel st). intros fuel. revert st s.
+    induction fuel as [|f IH]; intros st s; [reflexivity|].
+    rewrite hpoll_loop_S. destruct (poll_iter encode st s) as [[[r st'] s'] o] eqn:PI.
+    pose proof (poll_iter_flags _ _ _ _ _ _ PI) as (_ & _ & CN & _).
+    destruct r; [exact CN| |]; specialize (IH st' s'); destruct (hpoll_loop encode f st' s'); cbn in *; congruence.
+  - unfold do_poll_close. destruct (h_closing st); [reflexivity|]. cbn [h_sink set_msg set_closing].
+    destruct (h_sink st); cbn; destruct (h_sending st); autorewrite with css; reflexivity.
+Qed.
+
+Lemma hrun_conn ops : forall st, h_conn (fst (hrun encode st ops)) = h_conn st.
+Proof.
+  induction ops as [|op ops IH]; intros st; [reflexivity|].
+  unfold hrun in *. cbn [hrun_trace]. pose proof (hstep_conn st op) as C1.
+  destruct (hstep encode st op) as [st1 o1]. specialize (IH st1).
+  destruct (hrun_trace encode st1 ops) as [st2 os]. cbn in *. congruence.
+Qed.
+
+Lemma chain_ok_app_l c a : forall r b, chain_ok c r (a ++ b) -> chain_ok c r a.
+Proof. induction a as [|x a IH]; intros r b H; cbn in *; [exact I|]. destruct H. split; eauto. Qed.
+
+(* In a run that respects the contract the reports of the handler of connection c follow the protocol
+   Ready -> RequestReceived -> (Sending ->)? (Ready | Failed), and nothing follows Failed: every wantlist
+   the handler acknowledged (RequestReceived) is resolved by at most one terminal report. *)
+Theorem C14_report_protocol :
+  forall (c : conn) (ops : list hop),
+    disciplined encode true c ops = true -> chain_ok c RpReady (reports (handler_outs encode c ops)).
+Proof.
+  intros c ops D.
+  destruct (SI_run ops (h_init c) env_init [] [] (NPop_init c) FIc_init ltac:(intros ? ? H; discriminate) (ZI_init c) D)
+    as (e' & _ & _ & _ & Z).
+  destruct (z_chain _ _ _ _ Z) as [CH _]. rewrite hrun_conn in CH. cbn [h_conn h_init app] in CH.
+  unfold rtrace in CH. apply chain_ok_app_l in CH. exact CH.
+Qed.
+
+(* If the most recent report is RpReady and no report is queued, the wantlist handed over last has been
+   written completely (and flushed: see C14_ready_iff_flushed) to the one stream that carried its frame. *)
+Theorem C14_ready_means_delivered :
+  forall (c : conn) (ops : list hop),
+    disciplined encode true c ops = true ->
+    let st := handler_final encode c ops in
+    let outs := handler_outs encode c ops in
+    h_queue st = [] -> last (reports outs) RpReady = RpReady -> sent_ws ops <> [] ->
+    exists fr0 id w ws0,
+      h_frames st = fr0 ++ [(id, wantlist_message w)] /\ sent_ws ops = ws0 ++ [w]
+      /\ wrote_on id outs = encode (wantlist_message w).
+Proof.
+  intros c ops D st outs Q L NE. subst st outs. rewrite handler_final_hrun in *. unfold handler_outs in *.
+  destruct (SI_run ops (h_init c) env_init [] [] (NPop_init c) FIc_init ltac:(intros ? ? H; discriminate) (ZI_init c) D)
+    as (e' & _ & _ & _ & Z). cbn [app] in Z.
+  destruct (z_chain _ _ _ _ Z) as [_ LS]. unfold rtrace in LS. rewrite Q in LS. cbn in LS. rewrite app_nil_r, L in LS.
+  symmetry in LS. apply report_ready in LS.
+  destruct (z_rdy _ _ _ _ Z LS) as [E|DL]; [congruence|]. exact DL.
+Qed.
+
+(* an accepted wantlist arms the start-sending timeout START_SENDING_TIMEOUT ms ahead *)
+Lemma send_arms_timeout st w :
+  h_panicked st = false -> h_halted st = false -> h_msg st = None -> h_sending st = SsReady ->
+  let st' := fst (hstep encode st (HSendWantlist w)) in
+  h_timeout st' = Some (h_now st + START_SENDING_TIMEOUT) /\ h_msg st' = Some (wantlist_message w)
+  /\ h_sending st' = SsRequestReceived (h_now st) (h_conn st) /\ snd (hstep encode st (HSendWantlist w)) = [].
+Proof.
+  intros P HL M SD. unfold hstep. rewrite P. unfold do_send_wantlist. rewrite HL, M, SD. cbn.
+  autorewrite with css. auto.
+Qed.
+
+Lemma timeout_fired_iff st d : h_timeout st = Some d -> (timeout_fired st = true <-> d <= h_now st).
+Proof. intros T. unfold timeout_fired. rewrite T. rewrite N.leb_le. tauto. Qed.
+
+(* ------------------------------------------------------------------------------------------------ *)
+(* Theorem 3: C14_no_silent_loss                                                                    *)
+(* ------------------------------------------------------------------------------------------------ *)
+Theorem C14_no_silent_loss :
+  (* (a) exactly one outcome: in a run that respects the contract the reports follow
+         Ready -> RequestReceived -> (Sending ->)? (Ready | Failed) and nothing follows Failed *)
+  (forall (c : conn) (ops : list hop),
+     disciplined encode true c ops = true -> chain_ok c RpReady (reports (handler_outs encode c ops)))
+  (* (b) closing while a wantlist is outstanding: RpFailed, then HClosing, are the last two outputs *)
+  /\ (forall st s,
+        h_panicked st = false -> h_closing st = false ->
+        (exists t c, h_sending st = SsRequestReceived t c \/ h_sending st = SsSending t c) ->
+        exists pre, snd (hstep encode st (HPollClose s)) = pre ++ [HReport (RpFailed (h_conn st)); HClosing])
+  (* (c) progress: while Sending, polls that each let at least one byte through and offer a flush reach
+         RpReady after at most one poll per buffered byte *)
+  /\ (forall (ss : list (list io)) st id buf t c,
+        h_panicked st = false -> h_queue st = [] -> h_halted st = false -> h_timeout st = None ->
+        h_msg st = None -> h_sink st = SkReady id buf -> h_sending st = SsSending t c -> buf <> [] ->
+        Forall good_script ss -> (length buf <= length ss)%nat ->
+        In (HReport RpReady) (snd (hrun encode st (map HPoll ss))))
+  (* (d) no progress: once START_SENDING_TIMEOUT ms have passed since the wantlist was accepted and
+         sending has not started, the next poll reports RpFailed and halts the handler, whatever the
+         script *)
+  /\ (forall st s d,
+        h_halted st = false -> h_timeout st = Some d -> d <= h_now st ->
+        last_state (h_queue st) <> Some (SsFailed (h_conn st)) ->
+        (last_state (h_queue st) = None -> h_sending st <> SsFailed (h_conn st)) ->
+        (forall x, last_state (h_queue st) = Some x -> h_sending st = x) ->
+        In (HReport (RpFailed (h_conn st))) (snd (do_poll encode st s))
+        /\ h_halted (fst (do_poll encode st s)) = true /\ h_msg (fst (do_poll encode st s)) = None).
+Proof.
+  split; [exact C14_report_protocol|]. split; [|split].
+  - intros st s P CL SD. destruct (C05_close_reports_failed st s P CL SD) as [H _]. exact H.
+  - exact C14_progress_reaches_ready.
+  - intros st s d HL T LE L1 L2 L3.
+    assert (TF : timeout_fired st = true) by (apply (timeout_fired_iff st d T); exact LE).
+    destruct (C05_timeout_reports_failed st s HL TF L1 L2 L3) as (H1 & H2 & H3 & _). auto.
+Qed.
+
+(* ------------------------------------------------------------------------------------------------ *)
+(* Theorem 4: C05_handler_reports                                                                   *)
+(* ------------------------------------------------------------------------------------------------ *)
+Theorem C05_handler_reports :
+  (* start-sending timeout => RpFailed and halted (and the wantlist and the stream are dropped) *)
+  (forall st s,
+     h_halted st = false -> timeout_fired st = true ->
+     last_state (h_queue st) <> Some (SsFailed (h_conn st)) ->
+     (last_state (h_queue st) = None -> h_sending st <> SsFailed (h_conn st)) ->
+     (forall x, last_state (h_queue st) = Some x -> h_sending st = x) ->
+     let r := do_poll encode st s in
+     In (HReport (RpFailed (h_conn st))) (snd r) /\ h_halted (fst r) = true /\ h_msg (fst r) = None
+     /\ h_sink (fst r) = SkNone /\ h_timeout (fst r) = None /\ h_queue (fst r) = [])
+  (* flush error => RpFailed, the stream is dropped, the handler is not halted *)
+  /\ (forall st s id buf,
+        h_queue st = [] -> h_halted st = false -> timeout_fired st = false -> h_msg st = None ->
+        h_sink st = SkReady id buf -> h_sending st <> SsFailed (h_conn st) ->
+        fr_res (fw_poll_flush buf s) = PrErr ->
+        let r := do_poll encode st s in
+        snd r = map (hout_of_sev id) (fr_evs (fw_poll_flush buf s)) ++ [HDropped id; HReport (RpFailed (h_conn st))]
+        /\ h_sink (fst r) = SkNone /\ h_sending (fst r) = SsFailed (h_conn st) /\ h_halted (fst r) = false)
+  (* poll_close while RequestReceived / Sending => RpFailed before HClosing *)
+  /\ (forall st s,
+        h_panicked st = false -> h_closing st = false ->
+        (exists t c, h_sending st = SsRequestReceived t c \/ h_sending st = SsSending t c) ->
+        let r := hstep encode st (HPollClose s) in
+        (exists pre, snd r = pre ++ [HReport (RpFailed (h_conn st)); HClosing])
+        /\ h_msg (fst r) = None /\ h_sink (fst r) = SkNone /\ h_closing (fst r) = true
+        /\ h_sending (fst r) = SsFailed (h_conn st) /\ h_queue (fst r) = [])
+  (* allocation failure => a new HOpenStream at the next poll, until the timeout fires *)
+  /\ (forall st s m,
+        h_panicked st = false -> h_queue st = [] -> h_halted st = false -> h_msg st = Some m ->
+        h_sink st = SkRequested ->
+        let st1 := fst (hstep encode st HAllocFailed) in
+        let r := hstep encode st1 (HPoll s) in
+        snd (hstep encode st HAllocFailed) = []
+        /\ (timeout_fired st = false ->
+              snd r = [HOpenStream] /\ h_sink (fst r) = SkRequested /\ h_msg (fst r) = Some m /\ h_halted (fst r) = false)
+        /\ (timeout_fired st = true -> h_sending st <> SsFailed (h_conn st) ->
+              In (HReport (RpFailed (h_conn st))) (snd r) /\ h_halted (fst r) = true)).
+Proof.
+  split; [exact C05_timeout_reports_failed|]. split; [exact C05_flush_error_reports_failed|].
+  split; [exact C05_close_reports_failed | exact C05_alloc_failure_retries].
+Qed.
+
 End Proofs.
 
 (* ------------------------------------------------------------------------------------------------ *)
@@ -1070,3 +2158,58 @@ Example C14_one_frame_ex :
   /\ wrote_on 1 (handler_outs ex_encode 7 ex_ops) = [5; 1; 0]
   /\ FB ex_encode (h_frames (handler_final ex_encode 7 ex_ops)) 1 = [5; 1; 0; 7; 7; 7].
 Proof. repeat split; vm_compute; reflexivity. Qed.
+
+Example C14_ready_iff_flushed_ex :
+  let st := handler_final ex_encode 7 [HSendWantlist ex_w1; HPoll []; HSetStream; HPoll [WAccept 2]] in
+  h_queue st = [] /\ h_halted st = false /\ timeout_fired st = false /\ h_msg st = None
+  /\ h_sending st = SsSending 0 7 /\ h_sink st = SkReady 0 [1; 7; 7; 7]
+  /\ fr_res (fw_poll_flush [1; 7; 7; 7] [WAccept 9; FlushOk]) = PrOk
+  /\ fr_res (fw_poll_flush [1; 7; 7; 7] [WAccept 3; FlushOk]) = PrPending.
+Proof. vm_compute. repeat split; reflexivity. Qed.
+
+Example C14_report_protocol_ex :
+  reports (handler_outs ex_encode 7 ex_ops)
+  = [RpRequestReceived 7; RpSending 7; RpReady; RpRequestReceived 7; RpSending 7; RpFailed 7]
+  /\ chain_ok 7 RpReady (reports (handler_outs ex_encode 7 ex_ops)).
+Proof. split; [vm_compute; reflexivity|]. vm_compute. repeat split; reflexivity. Qed.
+
+Example C14_ready_means_delivered_ex :
+  let ops := [HSendWantlist ex_w1; HPoll []; HSetStream; HPoll [WAccept 2]; HPoll [WAccept 9; FlushOk]] in
+  disciplined ex_encode true 7 ops = true
+  /\ h_queue (handler_final ex_encode 7 ops) = []
+  /\ last (reports (handler_outs ex_encode 7 ops)) RpReady = RpReady
+  /\ sent_ws ops = [ex_w1]
+  /\ wrote_on 0 (handler_outs ex_encode 7 ops) = ex_encode (wantlist_message ex_w1).
+Proof. vm_compute. repeat split; reflexivity. Qed.
+
+(* C14_no_silent_loss: (b) closing mid-send, (c) one byte per poll, (d) 5000 ms without a stream *)
+Example C14_no_silent_loss_ex :
+  handler_run ex_encode 7 [HSendWantlist ex_w1; HPoll []; HSetStream; HPoll [WAccept 2]; HPollClose []]
+  = [[]; [HReport (RpRequestReceived 7); HOpenStream]; []; [HReport (RpSending 7); HWrote 0 [5; 0]];
+     [HDropped 0; HReport (RpFailed 7); HClosing]]
+  /\ handler_outs ex_encode 7 ([HSendWantlist ex_w1; HPoll []; HSetStream; HPoll []]
+                               ++ map HPoll (repeat [WAccept 1; FlushOk] 6))
+  = [HReport (RpRequestReceived 7); HOpenStream; HReport (RpSending 7);
+     HWrote 0 [5]; HWrote 0 [0]; HWrote 0 [1]; HWrote 0 [7]; HWrote 0 [7]; HWrote 0 [7];
+     HDropped 0; HReport RpReady]
+  /\ handler_run ex_encode 7 [HSendWantlist ex_w1; HPoll []; HAdvance 4999; HPoll []; HAdvance 1; HPoll [FlushOk]]
+  = [[]; [HReport (RpRequestReceived 7); HOpenStream]; []; []; []; [HReport (RpFailed 7)]]
+  /\ h_halted (handler_final ex_encode 7 [HSendWantlist ex_w1; HPoll []; HAdvance 5000; HPoll []]) = true.
+Proof. vm_compute. repeat split; reflexivity. Qed.
+
+(* C05_handler_reports: a reachable state meets the hypotheses of each clause *)
+Example C05_handler_reports_ex :
+  (let st := handler_final ex_encode 7 [HSendWantlist ex_w1; HPoll []; HAdvance 5000] in
+   h_halted st = false /\ timeout_fired st = true /\ h_queue st = []
+   /\ h_sending st = SsRequestReceived 0 7
+   /\ snd (do_poll ex_encode st [FlushOk]) = [HReport (RpFailed 7)])
+  /\ (let st := handler_final ex_encode 7 [HSendWantlist ex_w1; HPoll []; HSetStream; HPoll [WAccept 2]] in
+      fr_res (fw_poll_flush [1; 7; 7; 7] [WAccept 1; IoErr]) = PrErr
+      /\ snd (do_poll ex_encode st [WAccept 1; IoErr]) = [HWrote 0 [1]; HDropped 0; HReport (RpFailed 7)])
+  /\ (let st := handler_final ex_encode 7 [HSendWantlist ex_w1; HPoll []] in
+      h_closing st = false /\ h_sending st = SsRequestReceived 0 7
+      /\ snd (hstep ex_encode st (HPollClose [])) = [HReport (RpFailed 7); HClosing])
+  /\ (let st := handler_final ex_encode 7 [HSendWantlist ex_w1; HPoll []] in
+      h_sink st = SkRequested /\ h_msg st = Some (wantlist_message ex_w1) /\ timeout_fired st = false
+      /\ snd (hstep ex_encode (fst (hstep ex_encode st HAllocFailed)) (HPoll [])) = [HOpenStream]).
+Proof. vm_compute. repeat split; reflexivity. Qed.
